@@ -420,6 +420,10 @@ func TestC12HandshakeCancel(t *testing.T) {
 // ---------- blocking transport (real time) ----------
 
 type blockClose struct {
+	// HoldMs: how long the transport has been blocking when Close is called.
+	// Values above the resend timeout (200ms) put a retransmission in
+	// progress (queue.resend stuck in sendFunc) at that moment.
+	HoldMs  int  `json:"hold_ms"`
 	N       int  `json:"n"`
 	Msgs    int  `json:"msgs"`
 	Callers int  `json:"callers"`
@@ -441,8 +445,10 @@ func runC12BlockingBatch(cases []blockClose) []string {
 				Client: vnet.TimeoutCfg{Static: true, ResendMs: 200, HandshakeMs: 200},
 				Server: vnet.TimeoutCfg{Static: true, ResendMs: 200, HandshakeMs: 200}}
 			for k := 0; k < c.Msgs; k++ {
-				sc.C2S = append(sc.C2S, vnet.Msg{Len: 8})
-				sc.S2C = append(sc.S2C, vnet.Msg{Len: 8})
+				// paced, so that sending is still going on when the
+				// transport first loses and then blocks packets
+				sc.C2S = append(sc.C2S, vnet.Msg{Len: 8, GapMs: 4})
+				sc.S2C = append(sc.S2C, vnet.Msg{Len: 8, GapMs: 4})
 			}
 			env := vnet.NewEnv(sc)
 			env.StartHandshake()
@@ -452,10 +458,21 @@ func runC12BlockingBatch(cases []blockClose) []string {
 				return
 			}
 			env.StartTraffic()
-			time.Sleep(30 * time.Millisecond)
+			// first lose packets for a while (data stays unacknowledged, so
+			// a retransmission will be due), then block the transport
+			time.Sleep(20 * time.Millisecond)
+			env.C2S.SetSilent(true)
+			env.S2C.SetSilent(true)
+			time.Sleep(20 * time.Millisecond)
 			env.C2S.SetHold(true)
 			env.S2C.SetHold(true)
-			time.Sleep(20 * time.Millisecond)
+			env.C2S.SetSilent(false)
+			env.S2C.SetSilent(false)
+			hold := c.HoldMs
+			if hold <= 0 {
+				hold = 20
+			}
+			time.Sleep(time.Duration(hold) * time.Millisecond)
 			conn := env.Client
 			if c.Who == "server" {
 				conn = env.Server
@@ -516,6 +533,7 @@ func TestC12BlockingTransport(t *testing.T) {
 		var cases []blockClose
 		for i := 0; i < 24; i++ {
 			cases = append(cases, blockClose{
+				HoldMs:  rapid.SampledFrom([]int{5, 20, 190, 250, 450, 700, 1100}).Draw(rt, "hold_ms"),
 				N:       rapid.SampledFrom([]int{1, 2, 20}).Draw(rt, "n"),
 				Msgs:    rapid.IntRange(0, 30).Draw(rt, "msgs"),
 				Callers: rapid.IntRange(1, 3).Draw(rt, "callers"),
